@@ -107,3 +107,16 @@ CONFIG["C04"] = {
     "assumptions": COMMON_ASSUMPTIONS + ["nodes that a commitment-time finalisation does not visit (right branches of disconnect) contribute constraints but are not occurs-checked, mirroring what finalisation walks"],
     "counter_floors": {"quick": {"model.occurs": 200, "model.well-typed": 5000, "model.clash": 5000}, "thorough": {"model.occurs": 5000}},
 }
+
+CONFIG["C09"] = {
+    "budget_s": {"quick": 90, "thorough": 1500},
+    "floor": {"quick": 8000, "thorough": 400000},
+    "rule": ("a case is a type-directed random 1->1 program (no jets / Core jets / Elements jets; sharing and structural duplicates; witnesses, assertions with random or real hidden roots, "
+             "disconnect, fail, words). The from-scratch tagged-SHA256 commitment root of every node (harness SHA-256, IVs derived from the tag strings) is compared with cmr() of: every ConstructNode, "
+             "every node built through the Hiding wrapper with a random sixth of the sub-expressions hidden, the CommitNode and each of its nodes, unfinalize_types, the NamedCommitNode `main`, "
+             "RedeemNodes under two witness assignments and (where an expression of the same arrow exists) another disconnected branch, RedeemNode::unfinalize, to_construct_node, and the pruned program. "
+             "A per-worker map root -> one-level committed structure (children by root) reports two structures with one root. Word constants 2^1..2^512 separately. "
+             "Non-trivial: >= 4 nodes; distinct: distinct program renderings."),
+    "assumptions": COMMON_ASSUMPTIONS + ["jet roots are taken from the jet tables (C14 compares those with C); Policy::cmr / the CMR-only compiler is not public API and is covered in C16"],
+    "counter_floors": {"quick": {"variant.hiding": 10000, "variant.redeem": 15000, "variant.pruned": 5000}, "thorough": {"variant.hiding": 500000}},
+}
